@@ -237,7 +237,7 @@ func (b *backend) Delete(r *http.Request) error {
 }
 
 func (b *backend) Mkcol(r *http.Request) error {
-	if r.Header.Get("Content-Type") != "" {
+	if r.Header.Get("Content-Type") != "" || !internal.IsRequestBodyEmpty(r) {
 		return internal.HTTPErrorf(http.StatusUnsupportedMediaType, "webdav: request body not supported in MKCOL request")
 	}
 	err := b.FileSystem.Mkdir(r.Context(), r.URL.Path)
